@@ -6,4 +6,7 @@ INVARIANT Inv_HookOrder
 INVARIANT Inv_NoPostOnError
 INVARIANT Inv_ErrorMapped
 INVARIANT Inv_PreHonoured
+INVARIANT Inv_PreRequestHonoured
+INVARIANT Inv_PostChain
+INVARIANT Inv_NoDataOnError
 PROPERTY Live
